@@ -3,5 +3,7 @@ CONSTANT MaxRunSteps = 60
 INVARIANT NothingOfARefusedProgramRuns
 INVARIANT StartsAsSpecified
 INVARIANT IndexInRange
+INVARIANT NothingRunsWithoutASource
+INVARIANT InterpIffFlag
 PROPERTY Ends
 CHECK_DEADLOCK FALSE
